@@ -161,6 +161,39 @@ func checkC13(p *Program, r *Result) {
 		}
 	}
 
+	// ---- C13.e: the compressor's output buffer is only looked at after the compressor was closed (flush). zstd
+	// compresses blocks on background goroutines; the amount already emitted into the buffer at any earlier moment
+	// depends on GOMAXPROCS and scheduling.
+	r.rule("C13.e", "compressor output is only observed after Close", 1)
+	nObs, nBad := 0, 0
+	for _, fn := range sortedFuncs(scope) {
+		for _, ci := range callsIn(fn, func(ssa.CallInstruction) bool { return true }) {
+			if recvFieldOfCall(ci) != "Writer.compressed" {
+				continue
+			}
+			name := calleeRepoName(ci)
+			if !(strings.HasSuffix(name, ".Len") || strings.HasSuffix(name, ".Bytes") || strings.HasSuffix(name, ".Cap") || strings.HasSuffix(name, ".String") || strings.HasSuffix(name, ".Available")) {
+				continue
+			}
+			nObs++
+			closed := false
+			for _, c2 := range callsIn(fn, func(c ssa.CallInstruction) bool { return calleeRepoName(c) == "mcap.countingCRCWriter.Close" }) {
+				if instrDominates(c2, ci) {
+					closed = true
+				}
+			}
+			if closed {
+				r.held("C13.e", funcName(fn), "observation of the compressed buffer ("+trimPkg(name)+")", p.pos(ci.Pos()), "after the compressor was closed")
+			} else {
+				nBad++
+				r.violated("C13.e", funcName(fn), "observation of the compressed buffer ("+trimPkg(name)+")", p.pos(ci.Pos()),
+					"the compressor's output buffer is inspected while the compressor is still open; how much has been emitted so far depends on the encoder's background goroutines (GOMAXPROCS, scheduling) — and it is an unsynchronised read")
+			}
+		}
+	}
+	if nObs == 0 {
+		r.undecided("C13.e", "mcap.Writer", "observation of the compressed buffer", "", "no read of Writer.compressed found")
+	}
 	// ---- C13.d note
 	if nw := p.lookupFunc(pkgMcap, "NewWriter"); nw != nil {
 		for _, st := range fieldStores(nw, "WriterOptions", "Compression") {
